@@ -236,7 +236,7 @@ def gen(rng, tier):
     return out
 
 
-def _run(c, o):
+def _run(c, o, probe=None):
     from geomdl import operations
     import io, contextlib
     d = c.data['shape']
@@ -244,6 +244,7 @@ def _run(c, o):
     if c.kind in ('ins-rem',):
         operations.insert_knot(o, qp, list(c.data['nr']))
         mid = S.from_obj(o)
+        if probe: probe(o)
         operations.remove_knot(o, qp, list(c.data['nt']))
         return mid
     if c.kind == 'ins-rem-method':
@@ -253,6 +254,7 @@ def _run(c, o):
             if d['kind'] == 'curve':
                 o.insert_knot(qp[0], num=c.data['nr'][0])
                 mid = S.from_obj(o)
+                if probe: probe(o)
                 o.remove_knot(qp[0], num=c.data['nt'][0])
             else:
                 act = [k for k in range(len(qp)) if qp[k] is not None]
@@ -262,11 +264,13 @@ def _run(c, o):
                     kwr['uvw'[k]] = qp[k]; kwr['num_' + 'uvw'[k]] = c.data['nt'][k]
                 o.insert_knot(**kwi)
                 mid = S.from_obj(o)
+                if probe: probe(o)
                 o.remove_knot(**kwr)
         return mid
     if c.kind == 'refine-rem':
         operations.refine_knotvector(o, list(c.data['dens']))
         mid = S.from_obj(o)
+        if probe: probe(o)
         operations.remove_knot(o, qp, list(c.data['nt']))
         return mid
     if c.kind == 'rem-only':
@@ -354,11 +358,24 @@ def oracle(c):
     d = c.data['shape']
     o = S.build(d)
     before = S.from_obj(o)
+    held = []
+
+    def probe(obj):
+        # the list objects that hold the knot vectors before the removal: another holder of the same list (a second
+        # direction or a second shape set up from one list with normalize_kv=False) must not see them change
+        kvs = [obj.knotvector] if d['kind'] == 'curve' else list(obj.knotvector)
+        held.extend((kv, list(kv)) for kv in kvs)
     try:
-        mid = _run(c, o)
+        mid = _run(c, o, probe)
     except Exception as e:
         return "raised %s: %s" % (type(e).__name__, e)
     after = S.from_obj(o)
+    now = [o.knotvector] if d['kind'] == 'curve' else list(o.knotvector)
+    for k, (kv, snap) in enumerate(held):
+        if kv is not now[k] and list(kv) != snap:
+            return ("remove_knot changed, in place, the list object that held knot vector %d before the call (now replaced by a new "
+                    "list): any other direction / shape set up with the same list (normalize_kv=False) is corrupted: %s -> %s"
+                    % (k, show_list(snap), show_list(list(kv))))
     i = c.data['dir']
     t = c.data['nt'][i]
     if c.kind == 'rem-only':
